@@ -296,6 +296,8 @@ class ConditionLike:
         elif not isinstance(spec, dict):
             raise TypeError("`spec` must be a dict with a single item.")
 
+        spec = copy.deepcopy(spec)  # arguments are coerced in-place below
+
         BINARY_OPS = {
             "and": ConditionAnd,
             "or": ConditionOr,
